@@ -69,7 +69,7 @@ async def query_request(request: Request) -> JSONResponse:
                         "sqlState": e.sqlstate,
                     },
                     "code": code,
-                    "message": e.msg,
+                    "message": e.raw_msg,
                     "success": False,
                 }
             )
